@@ -841,8 +841,27 @@ async fn one_case(env: &mut Env, rng: &mut Rng, i: u64, seed: u64, f: &mut std::
 
 // ---------------------------------------------------------------- OTLP generation
 
+/// An attribute. Values spelled "int:<n>" / "bool:<b>" travel as typed AnyValues (their label text is the
+/// plain decimal / true / false); everything else is a string value.
 fn kv(k: &str, v: &str) -> KeyValue {
-    KeyValue { key: k.to_string(), value: Some(AnyValue { value: Some(any_value::Value::StringValue(v.to_string())) }) }
+    let value = if let Some(i) = v.strip_prefix("int:").and_then(|x| x.parse::<i64>().ok()) {
+        any_value::Value::IntValue(i)
+    } else if let Some(b) = v.strip_prefix("bool:").and_then(|x| x.parse::<bool>().ok()) {
+        any_value::Value::BoolValue(b)
+    } else {
+        any_value::Value::StringValue(v.to_string())
+    };
+    KeyValue { key: k.to_string(), value: Some(AnyValue { value: Some(value) }) }
+}
+
+fn label_text(v: &str) -> String {
+    if let Some(i) = v.strip_prefix("int:").filter(|x| x.parse::<i64>().is_ok()) {
+        i.to_string()
+    } else if let Some(b) = v.strip_prefix("bool:").filter(|x| x.parse::<bool>().is_ok()) {
+        b.to_string()
+    } else {
+        v.to_string()
+    }
 }
 
 fn gen_otlp(rng: &mut Rng) -> (ExportMetricsServiceRequest, Vec<Expected>, String) {
@@ -865,12 +884,25 @@ fn gen_otlp(rng: &mut Rng) -> (ExportMetricsServiceRequest, Vec<Expected>, Strin
                 if rng.chance(1, 3) {
                     a.push(("zone".to_string(), "z".to_string()));
                 }
+                if rng.chance(1, 4) {
+                    a.push(("port".to_string(), format!("int:{}", rng.pick(&[0i64, 8080, -1, i64::MAX]))));
+                }
+                if rng.chance(1, 5) {
+                    a.push(("canary".to_string(), format!("bool:{}", rng.chance(1, 2))));
+                }
+                if rng.chance(1, 4) {
+                    // same key as a resource attribute: the point's value is the series' value
+                    a.push(("res_only".to_string(), "from-point".to_string()));
+                }
+                if rng.chance(1, 3) {
+                    rng.shuffle(&mut a);
+                }
                 a
             };
             let labels_of = |pa: &[(String, String)]| -> BTreeMap<String, String> {
-                let mut l: BTreeMap<String, String> = res_attrs.iter().cloned().collect();
+                let mut l: BTreeMap<String, String> = res_attrs.iter().map(|(k, v)| (k.clone(), label_text(v))).collect();
                 for (k, v) in pa {
-                    l.insert(k.clone(), v.clone());
+                    l.insert(k.clone(), label_text(v));
                 }
                 l
             };
@@ -927,7 +959,15 @@ fn gen_otlp(rng: &mut Rng) -> (ExportMetricsServiceRequest, Vec<Expected>, Strin
         }
         rms.push(ResourceMetrics {
             resource: if res_attrs.is_empty() { None } else { Some(Resource { attributes: res_attrs.iter().map(|(k, v)| kv(k, v)).collect(), dropped_attributes_count: 0 }) },
-            scope_metrics: vec![ScopeMetrics { scope: None, metrics, schema_url: String::new() }],
+            scope_metrics: {
+                // one scope, or the metrics spread over two scopes of the same resource
+                if metrics.len() >= 2 && rng.chance(1, 3) {
+                    let tail = metrics.split_off(1);
+                    vec![ScopeMetrics { scope: None, metrics, schema_url: String::new() }, ScopeMetrics { scope: None, metrics: tail, schema_url: String::new() }]
+                } else {
+                    vec![ScopeMetrics { scope: None, metrics, schema_url: String::new() }]
+                }
+            },
             schema_url: String::new(),
         });
     }
